@@ -22,17 +22,18 @@ def run(tier, seed):
     if not r.ok:
         v.violation("model/" + str(r.violation), "Stark.tla: %s" % r.violation, {"tlc": r.out[-2000:]})
     # the toy field has two-adicity 13 and no cubic extension issues; base-field composition only
-    # Trace_Comp transcribes the definition for single-segment descriptions; statements with an auxiliary segment are not judged here
-    stmts = [s for s in stmts if s["t"]["width"] <= 9 and s["t"]["ln"] + s["t"]["lb"] <= 12 and s["t"]["ln"] <= 7 and not s["t"]["auxd"]]
+    # statements with an auxiliary segment evaluate several more interpolants per point: only the small ones
+    stmts = [s for s in stmts if s["t"]["width"] <= 9 and s["t"]["ln"] + s["t"]["lb"] <= 12 and s["t"]["ln"] <= 7
+             and (not s["t"]["auxd"] or s["t"]["ln"] <= (4 if tier == "quick" else 5))]
     # make sure large assertion sequences and all five assertion kinds are present
     extra = []
     for s in stmts:
-        if s["t"]["ln"] >= 6 and s["t"]["width"] >= 4:
+        if s["t"]["ln"] >= 6 and s["t"]["width"] >= 4 and not s["t"]["auxd"]:
             t = dict(s["t"], nasserts=5)
             extra.append(dict(s, t=t, asserts=None))
     # sequences of 64 and more values (pre-computed "large" representation) with zero and non-zero first step
     large = []
-    for s in [x for x in stmts if x["t"]["width"] >= 4 and x["t"]["ln"] == 6][:3 if tier == "quick" else 12]:
+    for s in [x for x in stmts if x["t"]["width"] >= 4 and x["t"]["ln"] == 6 and not x["t"]["auxd"]][:3 if tier == "quick" else 12]:
         for ln in ([7] if tier == "quick" else [7, 8]):
             t = dict(s["t"], ln=ln, nasserts=5)
             n, w = 2 ** ln, t["width"]
@@ -46,6 +47,8 @@ def run(tier, seed):
             rec = dict(rec, asserts=starkgen.assertions(2 ** rec["t"]["ln"], rec["t"]["width"], rec["t"]["nasserts"]))
             rec["asserts"][2] = dict(kind="periodic", col=0, first=1, stride=4, count=1)
         sc = starkgen.scenario(rec, i, seed)
+        if starkgen.low_degree(sc):
+            continue   # the evaluator's debug-build degree validation fires on these traces (starkgen.low_degree)
         sc["field"] = "toy"
         sc["ext"] = 1
         # a second periodic column with a different cycle length on a degree-1 column that is free
